@@ -6,9 +6,78 @@
 
 const char* nmc_property() { return "C05"; }
 using nm::None;
+using namespace nm::literals;
 
 // part encoding inside a key:  kind,v...   kind 0 = integer i | 1 = range (mask,start,stop,step; mask bit0 start bit1 stop bit2 step present) | 2 = ":" | 3 = ellipsis
 enum { K_INT = 0, K_RANGE = 1, K_ALL = 2, K_ELL = 3 };
+
+
+// ---- "es" / "ct": type patterns and menus (declared before the enumerator, which only emits what is instantiated) -------------------------
+// part type codes: 0..7 = range with that None mask (0 = ":" as {None,None}), 8 = run-time integer, 9 = Ellipsis, -1 = no part
+enum { P_INT = 8, P_ELL = 9, P_END = -1 };
+constexpr int ES_PT[][3] = {
+    // integer / Ellipsis next to every None pattern, both orders
+    {8, 1, -1}, {8, 2, -1}, {8, 3, -1}, {8, 4, -1}, {8, 5, -1}, {8, 6, -1},   {1, 8, -1}, {2, 8, -1}, {3, 8, -1}, {4, 8, -1}, {5, 8, -1}, {6, 8, -1},
+    {9, 1, -1}, {9, 2, -1}, {9, 3, -1}, {9, 4, -1}, {9, 5, -1}, {9, 6, -1},   {1, 9, -1}, {2, 9, -1}, {3, 9, -1}, {4, 9, -1}, {5, 9, -1}, {6, 9, -1},
+    // two ranges with different None patterns
+    {1, 2, -1}, {2, 1, -1}, {4, 3, -1}, {3, 4, -1}, {5, 6, -1}, {6, 5, -1}, {0, 1, -1}, {4, 0, -1},
+    // three parts: integer + Ellipsis + range in several orders, integer between / before / after ranges, three ranges
+    {8, 9, 1}, {8, 9, 2}, {8, 9, 3}, {8, 9, 4}, {8, 9, 5}, {8, 9, 6},   {1, 9, 8}, {2, 9, 8}, {3, 9, 8}, {4, 9, 8}, {5, 9, 8}, {6, 9, 8},
+    {8, 1, 9}, {8, 2, 9}, {8, 4, 9},   {9, 3, 8}, {9, 5, 8}, {9, 6, 8},   {9, 8, 1}, {9, 8, 4},   {2, 8, 9}, {6, 8, 9},
+    {1, 8, 2}, {4, 8, 3}, {6, 8, 5},   {8, 2, 4}, {8, 3, 1},   {5, 6, 8}, {1, 4, 8},   {1, 2, 4}, {3, 5, 6},
+    // eager form of the kinds the lazy "nd" family already passes (full triples, ":", integers, Ellipsis)
+    {7, 8, -1}, {8, 7, -1}, {0, 7, 8}, {8, 9, 7}, {7, 9, 8}, {8, 8, 7}, {7, 0, 9},
+};
+constexpr size_t ES_NPT = sizeof ES_PT / sizeof ES_PT[0];
+static int part_code(const L& p) { return p[0] == K_INT ? P_INT : (p[0] == K_ELL ? P_ELL : (p[0] == K_ALL ? 0 : (int)p[1])); }
+// value menu of one part of type `code` on an axis of extent n: in range, Python length >= 1 (clamping / emptiness per axis: s1, d1)
+static std::vector<L> es_menu(int code, long n) {
+    std::vector<L> r; auto R = [&](long mask, long s, long e, long st) { r.push_back({K_RANGE, mask, s, e, st}); };
+    switch (code) {
+    case P_INT: r.push_back({K_INT, 0}); r.push_back({K_INT, -1}); if (n > 2) r.push_back({K_INT, 1}); break;
+    case 0: r.push_back({K_ALL}); break;
+    case 1: if (n > 1) R(1, 1, 0, 0); R(1, -1, 0, 0); if (n > 2) R(1, -n, 0, 0); break;
+    case 2: if (n > 1) { R(2, 0, n - 1, 0); R(2, 0, -1, 0); } R(2, 0, 1, 0); break;
+    case 3: if (n > 1) { R(3, 1, n, 0); R(3, -n, -1, 0); } R(3, -1, n, 0); break;
+    case 4: R(4, 0, 0, -1); R(4, 0, 0, 2); if (n > 2) R(4, 0, 0, -2); break;
+    case 5: if (n > 1) R(5, 1, 0, 2); R(5, -1, 0, -1); if (n > 2) R(5, n - 2, 0, -2); break;
+    case 6: if (n > 1) R(6, 0, 0, -1); R(6, 0, n, 2); if (n > 2) R(6, 0, -n, -2); break;
+    default: if (n > 1) R(7, 1, n, 1); R(7, n - 1, -n - 1, -1); if (n > 2) R(7, 0, n, 2); break;
+    }
+    return r;
+}
+// compile-time-constant forms: X(number, number of run-time values, Python parts as LL, the C++ arguments)   (x, y = run-time values)
+#define CT_FORMS(X) \
+    X(0, 0, (LL{{K_INT, 0}, {K_ELL}}), 0_ct, nm::Ellipsis) \
+    X(1, 0, (LL{{K_INT, -1}, {K_ELL}}), "-1"_ct, nm::Ellipsis) \
+    X(2, 0, (LL{{K_ELL}, {K_INT, 1}}), nm::Ellipsis, 1_ct) \
+    X(3, 1, (LL{{K_INT, x}, {K_ELL}, {K_INT, -1}}), (int)x, nm::Ellipsis, "-1"_ct) \
+    X(4, 1, (LL{{K_INT, 1}, {K_RANGE, 1, x, 0, 0}, {K_ELL}}), 1_ct, nmtools_tuple{(int)x, None}, nm::Ellipsis) \
+    X(5, 0, (LL{{K_RANGE, 3, 0, 2, 0}, {K_ELL}}), nmtools_tuple{0_ct, 2_ct}, nm::Ellipsis) \
+    X(6, 1, (LL{{K_RANGE, 1, 1, 0, 0}, {K_ELL}, {K_INT, x}}), nmtools_tuple{1_ct, None}, nm::Ellipsis, (int)x) \
+    X(7, 1, (LL{{K_RANGE, 2, 0, -1, 0}, {K_ELL}, {K_INT, x}}), nmtools_tuple{None, "-1"_ct}, nm::Ellipsis, (int)x) \
+    X(8, 1, (LL{{K_RANGE, 3, x, 2, 0}, {K_ELL}}), nmtools_tuple{(int)x, 2_ct}, nm::Ellipsis) \
+    X(9, 2, (LL{{K_RANGE, 7, 1, x, y}, {K_ELL}}), nmtools_tuple{1_ct, (int)x, (int)y}, nm::Ellipsis) \
+    X(10, 1, (LL{{K_RANGE, 5, -2, 0, x}, {K_ELL}}), nmtools_tuple{"-2"_ct, None, (int)x}, nm::Ellipsis) \
+    X(11, 0, (LL{{K_RANGE, 4, 0, 0, 2}, {K_ELL}, {K_INT, 0}}), nmtools_tuple{None, None, 2_ct}, nm::Ellipsis, 0_ct) \
+    X(12, 0, (LL{{K_ELL}, {K_RANGE, 7, 0, -1, 1}}), nm::Ellipsis, nmtools_tuple{0_ct, "-1"_ct, 1_ct}) \
+    X(13, 0, (LL{{K_RANGE, 7, 0, 2, 1}, {K_INT, 1}, {K_ELL}}), nmtools_tuple{0_ct, 2_ct, 1_ct}, 1_ct, nm::Ellipsis) \
+    X(14, 2, (LL{{K_INT, x}, {K_RANGE, 3, y, -1, 0}, {K_INT, -1}}), (int)x, nmtools_tuple{(int)y, "-1"_ct}, "-1"_ct) \
+    X(15, 1, (LL{{K_RANGE, 5, x, 0, 2}, {K_ELL}}), nmtools_tuple{(int)x, None, 2_ct}, nm::Ellipsis) \
+    X(16, 1, (LL{{K_INT, 0}, {K_INT, x}, {K_ELL}}), 0_ct, (int)x, nm::Ellipsis) \
+    X(17, 0, (LL{{K_INT, -1}, {K_INT, 0}, {K_ELL}}), "-1"_ct, 0_ct, nm::Ellipsis)
+constexpr long CT_NFORMS = 18;
+static int ct_nparams(long f) { switch (f) {
+#define X(N, NP, PARTS, ...) case N: return NP;
+    CT_FORMS(X)
+#undef X
+    } nmc::die("ct: unknown form"); }
+static LL ct_parts(long f, long x, long y) { (void)x; (void)y; switch (f) {
+#define X(N, NP, PARTS, ...) case N: return PARTS;
+    CT_FORMS(X)
+#undef X
+    } nmc::die("ct: unknown form"); }
+static ROpt model_nd(const RArr& a, const LL& parts, bool& zero_extent, bool& index_error);
 
 void nmc_enumerate(const nmc::Tier& t, const nmc::Sink& emit_) {
     std::set<uint64_t> seen_keys;   // the per-focus menus overlap: emit every distinct key once
@@ -71,6 +140,54 @@ void nmc_enumerate(const nmc::Tier& t, const nmc::Sink& emit_) {
                     emit(e);
                 }
             });
+        }
+    });
+    // ---- argument kinds the families above never pass (audit of optional parameters / overloads / argument kinds) -------------------
+    // es: typed parts that KEEP their None parts ({s,None}, {None,e}, {None,None,st}, {s,e}, {s,None,st}, {None,e,st}) combined with integers, ":"
+    //     and an Ellipsis on 2-d / 3-d arrays; lazy view::slice, eager array::slice, array::apply_slice(tuple) and - where one either type can hold
+    //     the parts - the list-of-either encoding (view::apply_slice / array::apply_slice).  Only the type patterns of ES_PT are instantiated
+    //     (every None pattern next to an integer / an Ellipsis / another range, in every position); per part a 2-3 value menu with Python length >= 1.
+    {
+        long lo = t.thorough() ? 1 : 2, hi = t.thorough() ? 4 : 3;
+        for (size_t pi = 0; pi < ES_NPT; pi++) {
+            int np = 0, nell = 0; for (int k = 0; k < 3; k++) if (ES_PT[pi][k] != P_END) { np++; if (ES_PT[pi][k] == P_ELL) nell++; }
+            for (int d = std::max(2, np - nell); d <= (nell ? 3 : np - nell); d++) nmc::each_tuple((size_t)d, lo, hi, [&](const L& shp) {
+                std::vector<std::vector<L>> m; size_t ax = 0;
+                for (int k = 0; k < np; k++) {
+                    int code = ES_PT[pi][k];
+                    if (code == P_ELL) { m.push_back({L{K_ELL}}); ax += (size_t)(d - (np - nell)); continue; }
+                    m.push_back(es_menu(code, shp[ax])); ax++;
+                }
+                L l0(m.size(), 0), h0; for (auto& x : m) h0.push_back((long)x.size() - 1);
+                nmc::each_tuple(l0, h0, [&](const L& pick) { Case c("es"); c.a.push_back(shp); for (size_t k = 0; k < m.size(); k++) c.a.push_back(m[k][(size_t)pick[k]]); emit(c); });
+            });
+        }
+    }
+    // ct: integers / range parts given as compile-time constants (0_ct, "-1"_ct, tuples of constants) mixed with run-time parts; the forms are the
+    //     fixed expressions of CT_FORMS, the run-time values x, y come from a small menu; kept when Python accepts the index (no IndexError).
+    //     (a NEGATIVE compile-time step does not compile - index/slice.hpp:841 casts to make_unsigned_t<integral_constant> - and is not instantiated.)
+    {
+        long lo = t.thorough() ? 1 : 2, hi = t.thorough() ? 4 : 3;
+        for (long f = 0; f < CT_NFORMS; f++) for (int d = 2; d <= 3; d++) nmc::each_tuple((size_t)d, lo, hi, [&](const L& shp) {
+            int npar = ct_nparams(f);
+            L xs = npar >= 1 ? L{0, 1, 2, -1, -2, 3} : L{0}, ys = npar >= 2 ? L{1, 2, -1, -2} : L{0};
+            for (long x : xs) for (long y : ys) {
+                LL parts = ct_parts(f, x, y); int consumed = 0; for (auto& p : parts) if (p[0] != K_ELL) consumed++;
+                bool has_ell = consumed != (int)parts.size();
+                if (consumed > d || (!has_ell && consumed != d)) continue;
+                bool zero, ierr; RArr r(shp); model_nd(r, parts, zero, ierr); if (ierr) continue;
+                L v; if (npar >= 1) v.push_back(x); if (npar >= 2) v.push_back(y);
+                emit(Case("ct", {shp, {f}, v}));
+            }
+        });
+    }
+    // short: FEWER parts than axes and no Ellipsis (a[i], a[1:] on a 2-d / 3-d array: NumPy keeps the remaining axes whole); packed and list-of-either
+    for (int d = 2; d <= 3; d++) nmc::each_tuple((size_t)d, t.thorough() ? 1L : 2L, t.thorough() ? 4L : 3L, [&](const L& shp) {
+        for (int np = 1; np < d; np++) {
+            std::vector<std::vector<L>> m;
+            for (int k = 0; k < np; k++) { long n = shp[(size_t)k]; std::vector<L> r{{K_INT, -1}, {K_ALL}, {K_RANGE, 4, 0, 0, -1}}; if (n > 1 && t.thorough()) r.push_back({K_RANGE, 7, 1, n, 1}); m.push_back(r); }
+            L l0(m.size(), 0), h0; for (auto& x : m) h0.push_back((long)x.size() - 1);
+            nmc::each_tuple(l0, h0, [&](const L& pick) { Case c("short"); c.a.push_back(shp); for (size_t k = 0; k < m.size(); k++) c.a.push_back(m[k][(size_t)pick[k]]); emit(c); });
         }
     });
     // huge extents, index math only (the length goes through float)
@@ -167,6 +284,66 @@ template <typename A> static Obs dynamic_nd(const A& a, const LL& parts) {
     return nmc::observe(view::apply_slice(a, sl));
 }
 
+
+// ---- "es": typed parts that keep their None parts; lazy, eager and (where one either type can hold the parts) list-of-either
+template <int K> static auto mk_part(const L& p) {
+    if constexpr (K == P_INT) return (int)p[1];
+    else if constexpr (K == P_ELL) return nm::Ellipsis;
+    else if constexpr (K == 0) return nmtools_tuple{None, None};
+    else {
+        int s = (int)p[2], e = (int)p[3], st = (int)p[4];
+        if constexpr (K == 1) return nmtools_tuple{s, None};
+        else if constexpr (K == 2) return nmtools_tuple{None, e};
+        else if constexpr (K == 3) return nmtools_tuple{s, e};
+        else if constexpr (K == 4) return nmtools_tuple{None, None, st};
+        else if constexpr (K == 5) return nmtools_tuple{s, None, st};
+        else if constexpr (K == 6) return nmtools_tuple{None, e, st};
+        else return nmtools_tuple{s, e, st};
+    }
+}
+struct EsObs { Obs lazy, eager, eager_apply; };
+template <typename A, typename... P> static void es_call(const A& a, EsObs& o, P... p) {
+    o.lazy = nmc::observe(view::slice(a, p...));
+    o.eager = nmc::observe(na::slice(a, p...));
+    o.eager_apply = nmc::observe(na::apply_slice(a, nmtools_tuple<P...>{p...}));
+}
+template <size_t I, typename A> static void es_pattern(const A& a, const LL& parts, EsObs& o) {
+    constexpr int k0 = ES_PT[I][0], k1 = ES_PT[I][1], k2 = ES_PT[I][2];
+    if constexpr (k1 == P_END) es_call(a, o, mk_part<k0>(parts[0]));
+    else if constexpr (k2 == P_END) es_call(a, o, mk_part<k0>(parts[0]), mk_part<k1>(parts[1]));
+    else es_call(a, o, mk_part<k0>(parts[0]), mk_part<k1>(parts[1]), mk_part<k2>(parts[2]));
+}
+template <typename A, size_t... I> static bool es_dispatch(const A& a, const LL& parts, EsObs& o, std::index_sequence<I...>) {
+    int code[3] = {P_END, P_END, P_END}; if (parts.size() > 3) return false;
+    for (size_t k = 0; k < parts.size(); k++) code[k] = part_code(parts[k]);
+    bool done = false;
+    auto one = [&](auto idx) { constexpr size_t J = decltype(idx)::value; if (!done && ES_PT[J][0] == code[0] && ES_PT[J][1] == code[1] && ES_PT[J][2] == code[2]) { es_pattern<J>(a, parts, o); done = true; } };
+    (one(std::integral_constant<size_t, I>{}), ...);
+    return done;
+}
+// list-of-either encoding with ONE range type (index::get_tuple finds only the first tuple alternative of a nested either): int | range<M> | Ellipsis
+template <int M, typename A> static void es_dynamic(const A& a, const LL& parts, Obs& lazy, Obs& eager) {
+    using rng_t = decltype(mk_part<M>(L{})); using inner_t = nmtools_either<rng_t, nm::ellipsis_t>; using part_t = nmtools_either<int, inner_t>;
+    nmtools_list<part_t> sl;
+    for (auto& p : parts) {
+        if (p[0] == K_INT) sl.push_back(part_t{(int)p[1]});
+        else if (p[0] == K_ELL) sl.push_back(part_t{inner_t{nm::Ellipsis}});
+        else sl.push_back(part_t{inner_t{mk_part<M>(p)}});
+    }
+    lazy = nmc::observe(view::apply_slice(a, sl));
+    eager = nmc::observe(na::apply_slice(a, sl));
+}
+// ---- "ct": the fixed expressions of CT_FORMS
+template <typename A> static void ct_call(const A& a, long f, long x, long y, Obs& lazy, Obs& eager) {
+    (void)x; (void)y;
+    switch (f) {
+#define X(N, NP, PARTS, ...) case N: lazy = nmc::observe(view::slice(a, __VA_ARGS__)); eager = nmc::observe(na::slice(a, __VA_ARGS__)); return;
+    CT_FORMS(X)
+#undef X
+    }
+    nmc::die("ct: unknown form");
+}
+
 static Outcome verdict(const Obs& got, const ROpt& want, bool zero, bool ierr, bool nontriv, const char* enc) {
     uint64_t h = got.hash();
     if (zero) {   // Python gives an empty result: the only conforming answer is an array of exactly the model's shape (with its zero extent) and no element
@@ -228,6 +405,58 @@ Outcome nmc_execute(const Case& c) {
         if (!o2.fail.empty()) return o2;
         return o;
     }
+    if (c.op == "es") {
+        const L& shp = c.a[0]; LL parts(c.a.begin() + 1, c.a.end());
+        RArr r = RArr::iota(shp); auto a = make_arr<long>(shp);
+        bool zero, ierr; ROpt want = model_nd(r, parts, zero, ierr);
+        bool nontriv = want && want->data != r.data;
+        EsObs o; if (!es_dispatch(a, parts, o, std::make_index_sequence<ES_NPT>{})) nmc::die("es: type pattern not instantiated");
+        Outcome v = verdict(o.lazy, want, zero, ierr, nontriv, "view::slice");
+        if (!v.fail.empty()) return v;
+        Outcome e = verdict(o.eager, want, zero, ierr, nontriv, "array::slice");
+        if (!e.fail.empty()) return e;
+        std::string s = same(o.lazy, o.eager, "view::slice vs array::slice"); if (!s.empty()) return Outcome::bad("wrong", s, nontriv, o.lazy.hash());
+        s = same(o.eager, o.eager_apply, "array::slice vs array::apply_slice(tuple)"); if (!s.empty()) return Outcome::bad("wrong", s, nontriv, o.lazy.hash());
+        // list-of-either: possible when every range part has the same None pattern M (and there is no ":" next to it)
+        int M = -1; bool dyn_ok = true;
+        for (auto& p : parts) { int k = part_code(p); if (k == P_INT || k == P_ELL) continue; if (M == -1) M = k; else if (M != k) dyn_ok = false; }
+        if (dyn_ok && M >= 1 && M <= 6) {
+            Obs dl, de;
+            switch (M) { case 1: es_dynamic<1>(a, parts, dl, de); break; case 2: es_dynamic<2>(a, parts, dl, de); break; case 3: es_dynamic<3>(a, parts, dl, de); break;
+                         case 4: es_dynamic<4>(a, parts, dl, de); break; case 5: es_dynamic<5>(a, parts, dl, de); break; default: es_dynamic<6>(a, parts, dl, de); break; }
+            Outcome d1 = verdict(dl, want, zero, ierr, nontriv, "view::apply_slice(list of either)");
+            if (!d1.fail.empty()) return d1;
+            Outcome d2 = verdict(de, want, zero, ierr, nontriv, "array::apply_slice(list of either)");
+            if (!d2.fail.empty()) return d2;
+            nmc::count("es_list_of_either");
+        }
+        return v;
+    }
+    if (c.op == "ct") {
+        const L& shp = c.a[0]; long f = c.a[1][0], x = c.a[2].size() > 0 ? c.a[2][0] : 0, y = c.a[2].size() > 1 ? c.a[2][1] : 0;
+        RArr r = RArr::iota(shp); auto a = make_arr<long>(shp);
+        LL parts = ct_parts(f, x, y);
+        bool zero, ierr; ROpt want = model_nd(r, parts, zero, ierr);
+        bool nontriv = !want || want->data != r.data;
+        Obs lazy, eager; ct_call(a, f, x, y, lazy, eager);
+        Outcome v = verdict(lazy, want, zero, ierr, nontriv, "view::slice(ct)");
+        if (!v.fail.empty()) return v;
+        Outcome e = verdict(eager, want, zero, ierr, nontriv, "array::slice(ct)");
+        if (!e.fail.empty()) return e;
+        return v;
+    }
+    if (c.op == "short") {
+        const L& shp = c.a[0]; LL parts(c.a.begin() + 1, c.a.end());
+        RArr r = RArr::iota(shp); auto a = make_arr<long>(shp);
+        LL full = spell_full(shp, parts);
+        bool zero, ierr; ROpt want = model_nd(r, parts, zero, ierr);
+        bool nontriv = want && want->data != r.data;
+        Outcome o = verdict(packed_nd(a, full, 0), want, zero, ierr, nontriv, "packed, fewer parts than axes");
+        if (!o.fail.empty()) return o;
+        Outcome o2 = verdict(dynamic_nd(a, full), want, zero, ierr, nontriv, "dynamic, fewer parts than axes");
+        if (!o2.fail.empty()) return o2;
+        return o;
+    }
     if (c.op == "big") {   // index math only: shape_slice + one element mapping at both ends
         long n = c.a[0][0]; int s = (int)c.a[1][0], e = (int)c.a[1][1], st = (int)c.a[1][2];
         Sel sel; if (!py_sel(n, L{7, s, e, st}, sel)) nmc::die("step 0");
@@ -257,4 +486,12 @@ void nmc_selftest() {
     RArr r = RArr::iota(L{5}); bool z, e; ROpt m = model_nd(r, LL{{K_RANGE, 7, 4, 0, -2}}, z, e);
     Obs wrong; wrong.shape = {2}; wrong.data = {5, 4};
     if (nmc::diff(wrong, m).empty()) nmc::die("selftest: oracle blind to wrong step");
+    // None parts next to an integer: arange(12).reshape(3,4)[1, 1:] = [6 7 8] (iota base 1), [::-2, -1] = [12 4]
+    RArr r2 = RArr::iota(L{3, 4}); ROpt m2 = model_nd(r2, LL{{K_INT, 1}, {K_RANGE, 1, 1, 0, 0}}, z, e);
+    if (!m2 || m2->shape != L{3} || m2->data != std::vector<double>{6, 7, 8}) nmc::die("selftest: model a[1,1:]");
+    ROpt m3 = model_nd(r2, LL{{K_RANGE, 4, 0, 0, -2}, {K_INT, -1}}, z, e);
+    if (!m3 || m3->shape != L{2} || m3->data != std::vector<double>{12, 4}) nmc::die("selftest: model a[::-2,-1]");
+    Obs w2; w2.shape = {3}; w2.data = {5, 6, 7};   // an implementation that drops the None and reads start 0
+    if (nmc::diff(w2, m2).empty()) nmc::die("selftest: oracle blind to a dropped None part");
+    if (ct_parts(4, 2, 0) != LL{{K_INT, 1}, {K_RANGE, 1, 2, 0, 0}, {K_ELL}}) nmc::die("selftest: ct form table");
 }
